@@ -381,12 +381,17 @@ class Driver:
         return axes[0] if axes else None
 
     # -- event generation (online, from the PRNG) -------------------------------------------
-    def _gen_click_xy(self):
+    def _gen_click_xy(self, near_selected=False):
         rng, ax = self.rng, self.ax()
         x0, x1 = ax.get_xlim()
         y0, y1 = ax.get_ylim()
         r = rng.random()
         m = self.model
+        if near_selected and rng.random() < 0.7:
+            sel = sorted(m.cands)[0]
+            if sel:
+                f = rng.choice(sel)[0]
+                return {"x": float(f + rng.gauss(0, 0.01) * (x1 - x0)), "y": float(rng.uniform(y0, y1))}
         if r < 0.10:
             # outside the axes: pixel coordinates beyond the bounding box
             bb = ax.bbox
@@ -434,6 +439,23 @@ class Driver:
     def _gen_event(self):
         rng, sw = self.rng, self.swarm
         W = sw["w"]
+        plan = sw.get("plan")
+        if plan:
+            # a hand with a purpose: phases of picking and of deselecting, modifier held throughout
+            if not self.phys_shift:
+                if rng.random() < 0.85:
+                    return {"ev": "key_press", "key": "shift"}
+            else:
+                kind, left = plan[0]
+                if left <= 0:
+                    plan.pop(0)
+                else:
+                    plan[0] = (kind, left - 1)
+                    if rng.random() < 0.9:
+                        b = 1 if kind == "pick" else rng.choice([2, 2, 3])
+                        e = {"ev": "click", "button": b, "mods": ["shift"]}
+                        e.update(self._gen_click_xy(near_selected=(b == 2)))
+                        return e
         if self.phys_shift:
             kinds = [("b1", W["b1"]), ("b3", W["b3"]), ("b2", W["b2"]), ("rel", W["rel"]), ("menu", W["menu"]),
                      ("noise", W["noise"])]
@@ -647,12 +669,19 @@ class Driver:
 # ---------------------------------------------------------------------------------------------
 def gen_swarm(rng):
     r = rng.random()
-    nev = rng.randint(1, 6) if r < 0.25 else rng.randint(5, 14) if r < 0.8 else rng.randint(12, 24)
-    W = {"press": rng.choice([3, 5, 8]), "b1": rng.choice([3, 5, 8]), "b3": rng.choice([0.5, 1.5, 3]),
-         "b2": rng.choice([0.5, 1.5, 3]), "rel": rng.choice([0.5, 1.5, 3]), "menu": rng.choice([0.0, 0.5, 1.0]),
+    nev = rng.randint(1, 6) if r < 0.2 else rng.randint(5, 14) if r < 0.7 else rng.randint(12, 24)
+    W = {"press": rng.choice([3, 5, 8]), "b1": rng.choice([3, 5, 8]), "b3": rng.choice([0.5, 1.5, 3, 5]),
+         "b2": rng.choice([0.5, 1.5, 3, 5]), "rel": rng.choice([0.3, 1, 2]), "menu": rng.choice([0.0, 0.5, 1.0]),
          "noise": rng.choice([0.0, 0.5, 1.5])}
     faulty = rng.random() < 0.5
-    return {"nevents": nev, "w": W, "faulty": faulty, "p_drop": rng.choice([0.03, 0.08]), "p_dup": rng.choice([0.03, 0.08]),
+    plan = None
+    if rng.random() < 0.4:
+        plan = []
+        for _ in range(rng.randint(1, 3)):
+            plan.append(("pick", rng.randint(1, 4)))
+            plan.append(("desel", rng.randint(0, 3)))
+        nev = max(nev, sum(n for _, n in plan) + 2)
+    return {"nevents": nev, "w": W, "faulty": faulty, "plan": plan, "p_drop": rng.choice([0.03, 0.08]), "p_dup": rng.choice([0.03, 0.08]),
             "p_swap": rng.choice([0.03, 0.08]), "descending": rng.random() < 0.5, "render": rng.random() < 0.1}
 
 
